@@ -38,15 +38,16 @@ META = {
         "(user, index) occurrences in operand / successor lists of live ops; result/argument indices match). "
         "Theorems in coq/Props/C01.v (all closed, no axioms): wf_b_sound (the boolean checker implies WF); the empty "
         "heap is WF; for EVERY state, argument and index, WF is preserved by a non-raising call of "
-        "OpOperands.__setitem__, OpSuccessors.__setitem__ (negative indices included, code after fix f198beb), "
+        "the Operation.operands setter, OpOperands.__setitem__, OpSuccessors.__setitem__ (negative indices included, code after fix f198beb), "
         "SSAValue.replace_all_uses_with, replace_uses_with_if, erase, PatternRewriter.replace_all_uses_with / "
-        "replace_uses_with_if, Block.insert_op_after, Block.insert_op_before, Block.add_op, Block.detach_op and Operation.detach "
+        "replace_uses_with_if, Block.insert_op_after, Block.insert_op_before, Block.add_op, Block.detach_op, Operation.detach, "
+        "Region.detach_block (block or index) and, for a single block, Region.add_block / insert_block_before / Rewriter.insert_block "
         "(IRWithUses.add_use/remove_use are proved as pointer lemmas against the use-list invariant); C01_history: "
         "every finite history of these calls on live arguments, none raising, keeps WF; refutation witnesses for the "
         "two repaired defects (old code) and for the three classes of raising calls that leave partial mutations. "
-        "PARTIAL: all other modelled mutators (the remaining 43 constructors of `call`: creation, operands/successors "
-        "setters, erase of ops/blocks/regions, insert_arg/erase_arg, "
-        "add_ops/insert_ops_*, split_before, every Region block-list call, move_blocks*, add/detach_region, "
+        "PARTIAL: all other modelled mutators (creation, the successors setter, erase of ops/blocks/regions, "
+        "insert_arg/erase_arg, add_ops/insert_ops_*, split_before, block-list calls with several blocks, "
+        "insert_block_after, insert_block, move_blocks*, add/detach_region, "
         "drop_all_references, all Rewriter and PatternRewriter calls, Builder.create_block) are NOT proved; they are "
         "covered by the tie: model and real code run in lock-step on generated histories, every heap record that "
         "changes is compared after every call, and the proved-sound checker wf_b is evaluated on the model state and "
@@ -65,7 +66,7 @@ META = {
         "op/block has no neighbour pointers; allocated ids are below the counters): they are compared between model "
         "and code but a failure of only these clauses is reported in the evidence, not as a property violation."),
 }
-COQ_TARGETS = ["C01/Enc.vo", "C01/ProofsWfb.vo", "C01/ProofsOperands.vo", "C01/ProofsRauw.vo", "C01/ProofsOps.vo", "C01/ProofsHistory.vo",
+COQ_TARGETS = ["C01/Enc.vo", "C01/ProofsWfb.vo", "C01/ProofsOperands.vo", "C01/ProofsRauw.vo", "C01/ProofsSetOperands.vo", "C01/ProofsOps.vo", "C01/ProofsBlocks.vo", "C01/ProofsHistory.vo",
                "C01/ProofsDemo.vo", "Props/C01.vo"]
 REQ = ["C01.Model", "C01.Spec", "C01.Enc"]
 ASSUMPTIONS = [
@@ -440,17 +441,36 @@ def name_by_id(reg, pid):
 # ---------------------------------------------------------------------------- impl / model / oracle
 
 _TRACE_CACHE: dict = {}     # id(case) -> trace recorded while the case was generated (same process)
+HM = (1 << 31) - 1          # bit mask, as in coq/C01/Enc.v
+
+
+def hash_sx(B, x, acc):
+    """the polynomial hash of coq/C01/Enc.v `hash_sx` on nested int lists"""
+    if isinstance(x, int):
+        return (acc * B + (x + 101)) & HM
+    a = (acc * B + 7) & HM
+    for y in x:
+        a = hash_sx(B, y, a)
+    return (a * B + 11) & HM
+
+
+def compact(entry):
+    """[outcome, payload, d_op, d_block, d_region, d_value, d_use, flag] -> [outcome, payload, h1, h2, flag]"""
+    d = list(entry[2:7])
+    return [entry[0], entry[1], hash_sx(1000003, d, 1), hash_sx(998244353, d, 1), entry[7]]
+
+
+def impl_full(case):
+    w = World()
+    return [w.step(c) for c in case["calls"]]
 
 
 def impl(case):
+    """compact trace (the five delta lists of every call hashed; same hashes on the Coq side)"""
     hit = _TRACE_CACHE.pop(id(case), None)
-    if hit is not None:
-        return hit
-    w = World()
-    out = []
-    for c in case["calls"]:
-        out.append(w.step(c))
-    return out
+    if hit is None:
+        hit = impl_full(case)
+    return [compact(e) for e in hit]
 
 
 AUX_ONLY = []      # histories whose only failure is the auxiliary invariant (expected: none)
@@ -458,13 +478,14 @@ AUX_ONLY = []      # histories whose only failure is the auxiliary invariant (ex
 
 def why_fails(case):
     w = World()
+    seen_aux = False
     for k, c in enumerate(case["calls"]):
         e, errs, aux = w.step(c, detail=True)
         if errs:
             return k, c, e[0], errs
-        if aux:
+        if aux and not seen_aux:
+            seen_aux = True
             AUX_ONLY.append({"call_index": k, "call": c, "aux": aux})
-            return None
     return None
 
 
@@ -557,7 +578,38 @@ def coq_call(c):
 
 
 def coq_expr(case):
+    return "c01_case_h " + coq_list(coq_call(c) for c in case["calls"])
+
+
+def coq_expr_full(case):
     return "c01_case " + coq_list(coq_call(c) for c in case["calls"])
+
+
+def diagnose(ctx, case):
+    """full (un-hashed) traces of both sides for one case: first differing call and records"""
+    a = impl_full(case)
+    try:
+        b = ctx.coq_eval(REQ, [coq_expr_full(case)], shard=1)[0]
+    except Exception as e:  # noqa: BLE001
+        return {"model_error": str(e)[-500:]}
+    names = ["outcome", "payload", "op", "block", "region", "value", "use", "wf"]
+    for k, (x, y) in enumerate(zip(a, b)):
+        if x != y:
+            return {"call_index": k, "call": case["calls"][k],
+                    "differences": {n: {"impl": p, "model": q} for n, p, q in zip(names, x, y) if p != q}}
+    return {"note": "full traces agree", "len_impl": len(a), "len_model": len(b)}
+
+
+def replay_case(ctx, witness):
+    case = witness.get("case", witness)
+    if "calls" not in case:
+        print("no `calls` in the witness"); return 0
+    res = impl_full(case)
+    ok, why = holds(case, [compact(e) for e in res])
+    print("implementation outcomes:", [e[0] for e in res])
+    print("oracle:", "holds" if ok else why)
+    print("model vs implementation:", json.dumps(diagnose(ctx, case)))
+    return 0 if ok else 1
 
 
 # ---------------------------------------------------------------------------- generator
@@ -576,10 +628,10 @@ class Gen:
     # -- execution --------------------------------------------------------------
     def do(self, c):
         """issue a call; returns the returned object's id (or None)"""
-        e = self.w.step(c)
+        e, errs, aux = self.w.step(c, detail=True)
         self.calls.append(c)
         self.entries.append(e)
-        if e[-1] == 0:
+        if errs:              # a property-level failure ends the history (an auxiliary-only failure does not)
             self.broken = True
         if e[0] == 0 and e[1] != 0:
             return e[1][1]
@@ -1242,7 +1294,7 @@ def known(case, res):
     bad = [k for k, e in enumerate(res) if e[-1] == 0]
     if not bad:
         return None
-    k = bad[0]
+    k = len(res) - 1          # generated histories end at their first property-level failure
     c, e = case["calls"][k], res[k]
     for kid, pred in KNOWN_CLASSES:
         if pred(c, e, case, res, k):
@@ -1280,7 +1332,7 @@ def nontrivial(case, res):
 def run(ctx: Ctx):
     thorough = ctx.tier == "thorough"
     replay_findings(ctx, "history", impl, holds)
-    n_hist = 3000 if thorough else 300
+    n_hist = 2000 if thorough else 300
     cases, per_kind, raising, valid_calls, arbitrary_calls = [], Counter(), Counter(), 0, 0
     sizes = Counter()
     max_sizes = {k: 0 for k in irdump.KINDS}
@@ -1290,7 +1342,7 @@ def run(ctx: Ctx):
         cases.append(case)
         if k % 10 == 0:
             # replaying the recorded calls on fresh objects must reproduce the trace (determinism of ids and dumps)
-            if impl(case) != g.entries:
+            if impl_full(case) != g.entries:
                 raise RuntimeError("C01 harness: re-executing a generated history gave a different trace")
         _TRACE_CACHE[id(case)] = g.entries
         lens.append(len(case["calls"]) - case["n_init"])
@@ -1303,7 +1355,10 @@ def run(ctx: Ctx):
             arbitrary_calls += (not valid)
         for k in irdump.KINDS:
             max_sizes[k] = max(max_sizes[k], len(g.reg.objs[k]))
-    differential(ctx, DiffSpec("history", REQ, cases, impl, coq_expr, holds, known, nontrivial, shard=75))
+    differential(ctx, DiffSpec("history", REQ, cases, impl, coq_expr, holds, known, nontrivial, shard=30))
+    for b in ctx.broken:
+        if isinstance(b, dict) and b.get("correspondence") == "history" and "first_diverging_case" in b:
+            b["diagnostic"] = diagnose(ctx, b["first_diverging_case"])
     tot = sum(per_kind.values())
     ctx.coverage["calls_per_constructor"] = dict(sorted(per_kind.items()))
     ctx.coverage["raising_calls_per_constructor"] = dict(sorted(raising.items()))
